@@ -119,6 +119,13 @@ class Renderer:
             return "{" + txt + "}"
         return txt
 
+    def arg(self, a):
+        # 、 after a method call continues its chain, so a method call used as an argument is braced
+        t = self.expr(a, 1)
+        if a[0] == "EMethod" and not t.startswith("{"):
+            return "{" + t + "}"
+        return t
+
     def _expr(self, e):
         k = e[0]
         if k == "ENum":
@@ -167,7 +174,7 @@ class Renderer:
         if k == "ECall":
             s = "（" + e[1]
             if e[2]:
-                s += "：" + "、".join(self.expr(a, 1) for a in e[2])
+                s += "：" + "、".join(self.arg(a) for a in e[2])
             s += "）"
             if e[3]:
                 s += "，得到" + e[3]
@@ -178,7 +185,7 @@ class Renderer:
             for m, args in e[2]:
                 p = "（" + m
                 if args:
-                    p += "：" + "、".join(self.expr(a, 1) for a in args)
+                    p += "：" + "、".join(self.arg(a) for a in args)
                 p += "）"
                 parts.append(p)
             s += "、".join(parts)
@@ -188,7 +195,7 @@ class Renderer:
         if k == "ENew":
             s = "（新建" + e[1]
             if e[2]:
-                s += "：" + "、".join(self.expr(a, 1) for a in e[2])
+                s += "：" + "、".join(self.arg(a) for a in e[2])
             return s + "）", 8
         raise ValueError(k)
 
@@ -259,7 +266,7 @@ class Renderer:
         elif k == "SContinue":
             self.emit(ind, "继续循环")
         elif k == "SThrow":
-            self.emit(ind, "抛出%s：%s！" % (s[1], "、".join(self.expr(a, 1) for a in s[2])))
+            self.emit(ind, "抛出%s：%s！" % (s[1], "、".join(self.arg(a) for a in s[2])))
         elif k == "SExpr":
             self.emit(ind, self.expr(s[1], 1))
         elif k == "SFunc":
